@@ -287,6 +287,8 @@ var codeShapes = []string{
 	`<a href=@@>`, `<a title=@@>`, `<a href=/x/@@>`, `<@@>`, `<a@@>`, `<a @@="x">`, `<a x@@="y">`, `<a @@>`, `</@@>`, `<a href="x" @@>`,
 	`<a href="@@">`, `<a href='@@'>`, `<img src="@@">`, `<form action="@@">`, `<button formaction="@@">`, `<img srcset="@@">`, `<img srcset="a.png 1x, @@ 2x">`, `<video poster="@@">`, `<a xlink:href="@@">`,
 	`<script><!--<script></script>@@--></script>`, `<script><!--<SCRIPT>x</SCRIPT>@@//--></script>`, `<script>/*<!--*/</script><p>@@</p>`,
+	// the same helper needed at two sites whose contexts differ only in what the derived-template name leaves out
+	`<link rel="icon" href="@@"><link rel="stylesheet" href="@@">`, `<link rel="stylesheet" href="{{.TRU}}"><link rel="icon" href="@@"><link rel="stylesheet" href="@@">`, `<a href="@@">x</a><a href="java@@">y</a>`, `<img src="@@"><img src="/x?q=@@">`,
 	// bogus comments: the engine neutralises the '<' so that the action stays in text
 	`<p><![CDATA[@@]]></p>`, `<p><![cdata[@@]]></p>`, `<p><!x @@></p>`, `<?php @@ ?>`, `<p></ @@></p>`, `<!DOCTYPE @@>`, `<!doctype html @@><p>`, `<p><!-@@-></p>`, `<p><!--->@@--></p>`, `<p><!--x--!>@@--></p>`,
 	// names and rel values assembled around conditionals
@@ -311,7 +313,7 @@ func (c CodeCase) render() (string, map[string]interface{}) {
 	if c.Typed != "" {
 		v = tx.Typed(c.Typed, "https://h/trusted/"+string(c.Payload))
 	}
-	data := map[string]interface{}{"V": v, "C": true, "F": false, "L": []interface{}{v}, "U": "/u", "R": "stylesheet "}
+	data := map[string]interface{}{"V": v, "C": true, "F": false, "L": []interface{}{v}, "U": "/u", "R": "stylesheet ", "TRU": tx.Typed("TrustedResourceURL", "/s.css")}
 	act := "{{.V}}"
 	pre := ""
 	switch c.Wrap {
@@ -354,6 +356,22 @@ func checkCode(c CodeCase) evid.Outcome {
 		}
 		if strings.Contains(c.Shape, "<s{{") || strings.Contains(c.Shape, "<scr{{") || strings.Contains(c.Shape, " hr{{") || strings.Contains(c.Shape, " on{{") {
 			v.Finding = "K-tagsplit"
+		}
+		if c.Wrap == "helper" && strings.Count(c.Shape, "@@") >= 2 {
+			// attribution by repair: with the helper calls inlined the violation must be gone
+			in := c
+			in.Wrap = "plain"
+			ltext, ldata := in.render()
+			gone := true
+			if lt, e := tx.Parse(ltext); e == nil {
+				lout, _ := tx.Exec(lt, ldata)
+				if locate(lout) != "" {
+					gone = false
+				}
+			}
+			if gone {
+				v.Finding = "K-mangle"
+			}
 		}
 		if strings.Contains(c.Shape, `{{.R}}`) {
 			v.Finding = "K-reldyn"
